@@ -21,7 +21,7 @@ MARKUP_ALPHA = list('a1$#*@-.>+^()[]{}"\'\\ =/:!')
 CSS_ALPHA = list('a1$#-.+!,:()@%"\' t{}/')
 BOUNDS = {'quick': {'maxlen': 3}, 'thorough': {'maxlen': 4}}
 FLOORS = {'quick': {'markup:enum': 150000, 'css:enum': 60000, 'markup:mutation': 20000, 'css:mutation': 10000, 'markup:random': 2000, 'css:random': 2000},
-          'thorough': {'markup:enum': 3000000, 'css:enum': 1500000, 'markup:mutation': 400000, 'css:mutation': 200000, 'markup:random': 50000, 'css:random': 50000}}
+          'thorough': {'markup:enum': 3000000, 'css:enum': 1400000, 'markup:mutation': 400000, 'css:mutation': 200000, 'markup:random': 50000, 'css:random': 50000}}
 REQUIRED_MONITORS = ['oracle:exception-type', 'oracle:error-position', 'termination:bounded']
 
 BEM = {'bem.enabled': True}
